@@ -237,7 +237,6 @@ func (x *Explorer) runOne(ex *Exec) (end string, sample *PathSample) {
 		}
 	}()
 	ex.callSSA(nil, x.fn, nil, nil)
-	ex.runPending()
 	end = "ok"
 	return
 }
